@@ -84,10 +84,13 @@ def cases(tier, seed):
         for patience in (0, 1, 2):
             for ce in (1, 2):
                 for si, seq in enumerate(seqs):
-                    # complete in thorough; quick keeps every sequence for (patience 1, period 1, data) and a covering stride elsewhere
+                    # quick: every 4th sequence for (data only, patience 1, period 1) and a covering stride elsewhere;
+                    # thorough: every sequence for the data-only module, every 9th for the modules with auxiliary generators
                     if tier == "quick" and not (gi == 0 and patience == 1 and ce == 1) and (si + gi + patience + ce) % 41:
                         continue
                     if tier == "quick" and gi == 0 and patience == 1 and ce == 1 and si % 4:
+                        continue
+                    if tier == "thorough" and gi > 0 and (si + gi + patience + ce) % 9:
                         continue
                     out.append(dict(type="builtin", gens=gens_, patience=patience, call_every=ce, seq=list(seq), n_iter=Lb * ce, key=seed + 9))
     out.sort(key=lambda c: (c["type"] != "bfs", c["type"] != "protocol", c.get("n_iter", 0), len(c.get("script", []))))
